@@ -26,15 +26,14 @@ func Seed() int64 {
 }
 
 // Scratch returns a fresh directory under VERIF_SCRATCH (or /dev/shm).
-var scratchN int64
 
 func Scratch(prefix string) string {
 	base := os.Getenv("VERIF_SCRATCH")
 	if base == "" {
 		base = "/dev/shm"
 	}
-	d := filepath.Join(base, fmt.Sprintf("%s-%d-%d", prefix, os.Getpid(), atomic.AddInt64(&scratchN, 1)))
-	if err := os.MkdirAll(d, 0o755); err != nil {
+	d, err := os.MkdirTemp(base, fmt.Sprintf("%s-%d-", prefix, os.Getpid()))
+	if err != nil {
 		panic(err)
 	}
 	return d
